@@ -151,6 +151,14 @@ def step (σ : St) (op obs : List String) : St × List Msg :=
             some (Msg.propfail "get_filter_flags" "filter-flags"
               s!"alert {name}: role=tgt is reported silenced and inhibited ({tg}), role=src active ({sc}); GET /api/v2/alerts?{flag}=false must list [{w}], it lists [{g}]")
     (σ', msgs ++ (if settled then expectEq "astatus.flt" ("flt=" ++ ":".intercalate (want.map (·.2))) fl else []) ++ pf ++ [.tag "astatus:flags"])
+  | ["gmuted", name], [a, b] =>
+    -- AM.TimeInterval.route_gate on the API's view: the group of the muted route is reported muted by the interval,
+    -- the group of the route without intervals is not
+    (σ, (if a = "a=suppressed:always" then [] else [Msg.propfail "route_gate" "muted-group-not-reported"
+            s!"group {name}-a belongs to a route inside its mute interval 'always': GET /alerts/groups reports {a}"])
+        ++ (if b = "b=active:-" ∨ b = "b=unprocessed:-" then [] else [Msg.propfail "route_gate" "unmuted-group-reported-muted"
+            s!"group {name}-b belongs to a route without time intervals: GET /alerts/groups reports {b}"])
+        ++ [.tag "gmuted"])
   | ["astatus", name], [tg, sc, gr] =>
     let (σ', msgs) := step σ ["astatus", name] [tg, sc]
     -- GET /alerts/groups reports the CURRENT verdict too, not the one of the group's last flush
